@@ -188,13 +188,19 @@ reg("C05",
       bound="every triple: mul_sub(a,b,c) == mul_add(a,b,-c), sub_product(c,a,b) == mul_add(-a,b,c)"),
     )
 P32_FMA_D = [(-1000, -70), (-69, -40), (-39, -20), (-19, -8), (-7, -1), (0, 3), (4, 12), (13, 30), (31, 69), (70, 1000)]
-P32_FMA_QUICK = {(True, -1000, -70), (False, -1000, -70)}
+P32_FMA_QUICK = {(True, -1000, -70), (False, -1000, -70), (True, -69, -40), (False, -69, -40)}
+_fi = 0
 for same in (True, False):
     for lo, hi in P32_FMA_D:
         nm = "c05_p32_mul_add_%s_d%s_%s" % ("same" if same else "diff", str(lo).replace("-", "m"), str(hi).replace("-", "m"))
-        reg("C05", H(nm, "c05::p32::slice", gen="0, %s, %d, %d" % ("true" if same else "false", lo, hi), unwind=34, timeout=1800,
-                     tier="quick" if (same, lo, hi) in P32_FMA_QUICK else "thorough", funcs=["P32E2::mul_add"], space_bits=96, slice_of="P32E2 mul_add over all real triples",
+        _always = (same, lo, hi) in P32_FMA_QUICK
+        # quick: the four cheap far-addend classes always, plus two of the other 16 classes rotated by VERIF_SEED (period 8:
+        # measured 340-800 s each when few run at once); thorough: the whole partition
+        reg("C05", H(nm, "c05::p32::slice", gen="0, %s, %d, %d" % ("true" if same else "false", lo, hi), unwind=34, timeout=2400,
+                     tier="quick" if _always else "thorough", rot=None if _always else (_fi, 8), funcs=["P32E2::mul_add"], space_bits=96, slice_of="P32E2 mul_add over all real triples",
                      bound="real operands, sign(a*b) %s sign(c), scale(a)+scale(b)-scale(c) in [%d,%d]" % ("==" if same else "!=", lo, hi)))
+        if not _always:
+            _fi += 1
 
 # ------------------------------------------------------------------ C06
 reg("C06",
